@@ -2,5 +2,5 @@ SPECIFICATION VSpec
 CONSTANTS Policy = {0, 1}
  MaxH = 2
  MaxSteps = 7
-INVARIANTS TypeOK ValidMeansKnown DirectNeverOutlivesUpdate IndirectSurvives CallsDefined
+INVARIANTS TypeOK ValidMeansKnown DirectNeverOutlivesUpdate IndirectSurvives CallsDefined EarlyOnlyIndirect
 CHECK_DEADLOCK FALSE
